@@ -216,11 +216,17 @@ def run(ctx):
                        "parallel subtree updates modelled sequentially (schedules: observed only)"]
     binp = build_engine(ctx)
     cases = gen_cases(ctx)
-    lines = tg.run_engine(ctx, binp, "TestVerifTrieOps", cases, "c10")
+    lines, crash = tg.run_engine_safe(ctx, binp, "TestVerifTrieOps", cases, "c10")
+    crashed = None
+    if crash is not None:
+        crashed = cases[crash]
+        cases = cases[:crash]
     if len(lines) != len(cases):
         raise RuntimeError("engine returned %d observations for %d cases" % (len(lines), len(cases)))
     obs = [json.loads(l) for l in lines]
     fails = predicates(cases, obs)
+    if crashed is not None:
+        fails.insert(0, ("crash", "the trie panics (process killed) on this op sequence", slim(crashed)))
     toy = [(c, o) for c, o in zip(cases, obs) if c["hash"] == "toy" and not o.get("err")]
     # kernel evaluation: corpus + a sample; extracted model: everything
     ksel = [x for x in toy if x[0].get("shape") == "corpus"]
